@@ -160,7 +160,8 @@ def write_pixels_shape(F, S):
         pitch_t = ("call", IH + "::CalculatePitch", None, (P(fn, 4), P(fn, 2)))
         bytes_t = ("call", IH + "::CalcPixelByteWidth", None, (P(fn, 4), P(fn, 2)))
         a0r = resolve(a0, defs)
-        if a0r not in (("un", "&", ("idx", pix, ("op", "*", y, pitch_t))), ("op", "+", ("call", "std::vector::data", pix, ()), ("op", "*", y, pitch_t))):
+        alt = a0r[0] == "op" and a0r[1] == "+" and a0r[2][0] == "call" and a0r[2][1].endswith("::data") and a0r[2][2] == pix and a0r[3] == ("op", "*", y, pitch_t)
+        if a0r != ("un", "&", ("idx", pix, ("op", "*", y, pitch_t))) and not alt:
             probs.append("row source is %s" % fmt_term(a0r))
         if a1 != bytes_t:
             probs.append("row length is %s" % fmt_term(a1))
